@@ -125,10 +125,12 @@ type Scenario struct {
 	Argv  []string `json:"argv,omitempty"`
 	Files []File   `json:"files,omitempty"`
 	// Stdin: nil = /dev/null
-	Stdin    *Bytes   `json:"stdin,omitempty"`
-	TmpOther bool     `json:"tmp_other_fs,omitempty"`
-	Env      []string `json:"env,omitempty"`
-	Plan     Plan     `json:"plan"`
+	Stdin    *Bytes `json:"stdin,omitempty"`
+	TmpOther bool   `json:"tmp_other_fs,omitempty"`
+	// TmpMissing: TMPDIR names a directory that does not exist yet (yq creates it)
+	TmpMissing bool     `json:"tmp_missing,omitempty"`
+	Env        []string `json:"env,omitempty"`
+	Plan       Plan     `json:"plan"`
 	// WatchdogS overrides the wall-clock watchdog (seconds) for scenarios that are expected to hang
 	WatchdogS int `json:"watchdog_s,omitempty"`
 	// StdoutDevFull connects stdout to the real /dev/full (every write fails with ENOSPC in the kernel)
